@@ -1,6 +1,6 @@
 """Contracts for cr.cube.cubepart (_Slice / _Strand): assembly and public properties
 (C05 core; C01/C02/C03/C11/C17 public wiring)."""
-from pvc.harness import Contract, REGISTRY
+from pvc.harness import Contract, EnumContract, REGISTRY
 
 MOD = "cubepart"
 
@@ -434,3 +434,65 @@ class PairwiseIndices(Contract):
 
 
 REGISTRY.append(PairwiseIndices())
+
+
+class PairwiseThresholds(EnumContract):
+    """C13: the thresholds handed to `_pairwise_indices` -- `_alpha` is the smaller and
+    `_alpha_alt` the larger of the (at most two) requested alphas, so that the secondary index
+    sets contain the primary ones; one alpha (float or 1-list) leaves the secondary absent;
+    nothing requested means 0.05; only-larger mode is on unless explicitly set False.  Run on
+    the real `_Slice` (no cube access is needed for these members)."""
+
+    name = MOD + ":_Slice._alpha_values / _alpha / _alpha_alt / _only_larger"
+    props = ("C13",)
+    bound = "alpha spellings {omitted, None, [], (), 0.0, float, 1-list, 2-list / 2-tuple in both orders, 3-list} over a grid of 7 values in (0, 1); only_larger in {omitted, True, False, None, 0, 1}; pairwise_indices key present / absent; exhaustive"
+    clauses = ("alpha-pair", "alpha-order", "wiring", "only-larger")
+
+    def cases(self, cfg, seed, thorough):
+        grid = [0.001, 0.01, 0.05, 0.1, 0.3, 0.5, 0.999]
+        alphas = [("omitted",), ("value", None), ("value", []), ("value", ()), ("value", 0.0)]
+        alphas += [("value", a) for a in grid] + [("value", [a]) for a in grid] + [("value", (a,)) for a in grid]
+        for a in grid:
+            for b in grid:
+                alphas += [("value", [a, b]), ("value", (a, b)), ("value", [a, b, 0.2])]
+        for al in alphas:
+            for ol in (("omitted",), ("value", True), ("value", False), ("value", None), ("value", 0), ("value", 1)):
+                yield {"alpha": al, "only_larger": ol, "key": True}
+        yield {"alpha": ("omitted",), "only_larger": ("omitted",), "key": False}
+        yield {"alpha": ("omitted",), "only_larger": ("omitted",), "key": None}
+
+    def check_case(self, case, cfg):
+        from cr.cube.cubepart import _Slice
+
+        pw = {}
+        if case["alpha"][0] == "value":
+            pw["alpha"] = case["alpha"][1]
+        if case["only_larger"][0] == "value":
+            pw["only_larger"] = case["only_larger"][1]
+        transforms = {"pairwise_indices": pw} if case["key"] else ({} if case["key"] is False else None)
+        sl = _Slice(None, 0, transforms, None, 0)
+        bad = []
+        # oracle from the statement
+        v = pw.get("alpha")
+        if not v:
+            exp = (0.05, None)
+        elif isinstance(v, float):
+            exp = (v, None)
+        elif len(v) == 1:
+            exp = (v[0], None)
+        else:
+            exp = (min(v[0], v[1]), max(v[0], v[1]))
+        got = sl._alpha_values
+        if tuple(got) != exp:
+            bad.append("alpha-pair")
+        if got[1] is not None and not got[0] <= got[1]:
+            bad.append("alpha-order")
+        if sl._alpha != exp[0] or sl._alpha_alt != exp[1]:
+            bad.append("wiring")
+        exp_ol = not (pw.get("only_larger", True) is False)
+        if sl._only_larger is not exp_ol:
+            bad.append("only-larger")
+        return bad
+
+
+REGISTRY.append(PairwiseThresholds())
